@@ -157,6 +157,18 @@ func runImportCase(c impCase) (fail string) {
 	}
 	imp.Close()
 	imp.Close() // documented as safe to call multiple times
+	// the instance the import ran on: nothing is visible there either unless Commit succeeded
+	if !committed {
+		if lv, err := tree.GetLatestVersion(); err != nil || lv != 0 {
+			return fmt.Sprintf("import was not committed, but the importing instance reports GetLatestVersion() = %d, %v", lv, err)
+		}
+		if vs := tree.AvailableVersions(); len(vs) != 0 || tree.VersionExists(c.Version) {
+			return fmt.Sprintf("import was not committed, but the importing instance reports versions %v, VersionExists(%d) = %v", vs, c.Version, tree.VersionExists(c.Version))
+		}
+		if tree.Size() != 0 {
+			return fmt.Sprintf("import was not committed, but the importing instance has Size() = %d", tree.Size())
+		}
+	}
 	// a fresh instance on the resulting storage
 	t2 := iavl.NewMutableTree(st.Clone(), 0, false, iavl.NewNopLogger())
 	lv, err := t2.Load()
